@@ -60,7 +60,8 @@ CHECKS = {
         "saved-condition variable and opaque flags (<=5-6 statements) model-checked for FlowN1 (no object seen by a concrete run "
         "is lost) / FlowN2 (nothing outside the reaching assignments and the tested types) and replayed through the visitor and "
         "CPython for every flag choice (15.7k reads, 56.6k runs in quick, drift 0); seven named deviation classes stated on the "
-        "lost object (known_findings.jsonl).",
+        "lost object (known_findings.jsonl)."
+        " Match statements with guards (MatchCases.tla: 2-3 cases of (pattern, guard); visit_Match bookkeeping vs concrete match execution validated against CPython; 2.8k functions replayed in quick) and ordering comparisons with the len() call on either side are covered.",
         design="2/C02",
         note=TRUSTED + " == / != / in / value patterns quantify only over type-respecting equality, as the property says; two "
         "gradual-typing leniencies are excluded from N1 for TypeIs against a parametrised type; sequence/mapping/class-subpattern "
@@ -202,15 +203,26 @@ CHECKS = {
         "visitor issues per statement) vs CFG.tla (independent collecting semantics: strict and liberal reaching definitions), "
         "skeleton generator ScopeGen.tla; TLC checks Strict <= Reported <= Liberal at every use of every generated function body; "
         "each body is rendered to Python, checked by the real visitor and the reported definition sets adjudicated by TLC "
-        "(ScopesTrace.tla)",
+        "(ScopesTrace.tla); a second observable on usage_to_definition_nodes (unused_variable / unused_assignment per binding: a "
+        "binding that reaches a use along a strict path must not be reported); slices for loop-continue / loop-exit bodies, "
+        "try / finally inside loops, other binding forms (augmented assignment, import, walrus, with-as, for targets, except-as), "
+        "inner scopes (comprehensions / lambdas reading, iterating, binding) and match captures, observed on the function "
+        "scope's own maps where the bound values are not literals",
         text="Model checking: every function body of <=4 (quick) / <=6 (thorough) statements over assignments, uses, calls, "
         "if/while/while True/for (+else), with (suppressing or not), try/except/else/finally, return/raise/break/continue; the "
         "scope-machine model is bound to the code by exhaustive replay (drift 0) and the real reports are judged by the oracle; "
         "three named deviation classes (loop else, always-entered loop first iteration, loop body revisited after unconditional "
-        "exit) are known findings. Larger bodies by TLC simulation.",
+        "exit) are known findings. Larger bodies by TLC simulation. Quick: exhaustive 4 statements / depth 2 / 2 variables (256k "
+        "states, all 1.7k bodies replayed) plus slices loopcont (179k states, 5.9k bodies), finally (254k, 720), binders (138k, "
+        "3k sampled), inner (19k, 900), match (751k, 1.5k), nested5, closure4, loopexit7; thorough: 5 / 3 / 2 variables (9.6M "
+        "states) and 6 / 3 / 1 variable (87M); twelve named deviation classes, each excusing only reports the model reproduces "
+        "exactly.",
         design="2/C09",
         note=TRUSTED + " Dead code (statements after return/raise/break/continue in the same block) is outside the grammar "
-        "(pyanalyze deliberately analyses it as fall-through); nested functions with nonlocal are generated as one-statement closures called after a dominating definition (ScopeGen.closure*.cfg); `global` is not generated (module variables are flow-insensitive by design); loop-exit bodies with break under try / suppressing with form their own slice (ScopeGen.loopexit.cfg).",
+        "(pyanalyze deliberately analyses it as fall-through); nested functions with nonlocal are generated as one-statement closures called after a dominating definition (ScopeGen.closure*.cfg); `global` is not generated (module variables are flow-insensitive by design); loop-exit bodies with break under try / suppressing with form their own slice (ScopeGen.loopexit.cfg); in the newer slices "
+        "programs with a statement following a compound statement that cannot complete normally are outside the domain (DeadTail); "
+        "`del` (treated as a read by pyanalyze) and class bodies reading function variables (resolved flow-insensitively by "
+        "design) are left out.",
     ),
     "C10": dict(
         technique="TLA+ spec Determinism.tla (set-iteration sites on the way to output as schedule choices; the Checker as a cache "
